@@ -3,6 +3,7 @@ package main
 // golife.go — E11 goroutine lifecycle rules and the sink-invocation analysis used by C18.
 
 import (
+	"go/constant"
 	"fmt"
 	"go/token"
 	"go/types"
@@ -428,6 +429,19 @@ func (a *A) ruleGoroutines(lifecycleAdders map[string]string) {
 					local = true
 				}
 			})
+			if !local {
+				// the Add sits in a branch whose condition is tested again before the go (`if !stopped { Add }` …
+				// `if stopped { return }` … `go`): no feasible path reaches the go statement without an Add
+				hasAdd := false
+				allInstrs(gs.Fn, func(in ssa.Instruction) {
+					if isAdd(in) && in.Parent() == gs.Fn {
+						hasAdd = true
+					}
+				})
+				if hasAdd && len(gs.Fn.Blocks) > 0 && !explorePathsX(gs.Fn, nil, nil, func(x ssa.Instruction) bool { return x == gs.In }, func(ssa.Value) Tri { return U }, isAdd, nil) {
+					local = true
+				}
+			}
 			if local {
 				a.Ok(name+":"+bname+"#wg-add-before-go", gs.In.Pos(), "%s.Add precedes the go statement", doneField.Name())
 			} else if adder, ok := lifecycleAdders[bname]; ok {
@@ -723,6 +737,36 @@ func (a *A) ruleRegisteredGoroutinesSpawned() int {
 		for _, gd := range guardsOf(in.Block()) {
 			if t := TermOf(gd.Cond, nil); gd.Sense && t.Kind == "field" && t.Field != nil {
 				g = t.Field
+			}
+		}
+		// one Add of a computed count (`n := 1; if cfg.NeedWindow { n = 2 }; lifecycle.Add(n)`): the count above the
+		// smallest one is registered under the condition of the branch that raised it
+		if phi, isPhi := cc.Args[len(cc.Args)-1].(*ssa.Phi); isPhi && g == nil {
+			leaves := phiLeafEdges(phi)
+			min, allK := int64(1<<62), len(leaves) > 0
+			for _, l := range leaves {
+				k, isK := l.v.(*ssa.Const)
+				if !isK || k.Value == nil || k.Value.Kind() != constant.Int {
+					allK = false
+					break
+				}
+				if k.Int64() < min {
+					min = k.Int64()
+				}
+			}
+			if allK {
+				adds = append(adds, add{in, nil})
+				for _, l := range leaves {
+					if l.v.(*ssa.Const).Int64() <= min || l.from == nil {
+						continue
+					}
+					for _, gd := range guardsOf(l.from) {
+						if t := TermOf(gd.Cond, nil); gd.Sense && t.Kind == "field" && t.Field != nil {
+							adds = append(adds, add{in, t.Field})
+						}
+					}
+				}
+				return
 			}
 		}
 		adds = append(adds, add{in, g})
